@@ -59,11 +59,11 @@ def check(ctx, report):
         reviewed = json.load(fh).get('C01.R1', {})
     with open(os.path.join(here, 'nondsl.json')) as fh:
         nondsl = json.load(fh)
-    from ..codecs import EVALUATED_CODECS
+    from ..codecs import ACCEPTANCE_CODECS, EVALUATED_CODECS
     for c in model.concrete_parsables():
-        if c.name in EVALUATED_CODECS:
+        if c.name in ACCEPTANCE_CODECS:
             # inputs the format has no text for (a DNS label of more than 63 octets): accepted means composable
-            ev = EVALUATED_CODECS[c.name](ctx)
+            ev = ACCEPTANCE_CODECS[c.name](ctx)
             report.count('C05.R1', ev.get('runs', 0))
             if not ev['evaluated']:
                 report.add('C05.R1', '%s@codec[evaluation]' % c.construct, 'the codec left the subset the evaluation understands: %s' % ev['why'])
